@@ -125,6 +125,8 @@ _MUL = "implies(onp(self, p), onp(self, result) and eltp(self, result) == gmul(s
 _LOG1 = ("implies(not is_inf(p) and in_group(self, p[0], p[1]) and not is_inf(result), in_group(self, result[0], result[1]) "
          "and (dlog(self, result[0], result[1]) - n * dlog(self, p[0], p[1])) % self.n == 0)")
 _LOG2 = "implies(not is_inf(p) and in_group(self, p[0], p[1]), is_inf(result) == ((n * dlog(self, p[0], p[1])) % self.n == 0))"
+_RED = ("implies(p[0] is not None and 0 <= p[0] and p[0] < self.mod and 0 <= p[1] and p[1] < self.mod, result[0] is None or "
+        "(0 <= result[0] and result[0] < self.mod and 0 <= result[1] and result[1] < self.mod))")
 _DET = "is_inf(result) == ufb('ec_mul_is_inf', self.a, self.b, self.mod, p[0] is None, p[0], p[1], n)"
 
 
@@ -146,8 +148,8 @@ class Multiply:
   entry_ghost = ["g_T = gmul(self, n, eltp(self, p))", "g_on = onp(self, p)", "g_fin = p[0] is not None",
                  "g_px = p[0] if p[0] is not None else 0", "g_py = p[1] if p[1] is not None else 0", "g_k = n"]
   spec_axioms = ["forall((x, y), True, implies(in_group(self, x, y), oncv(self, x, y)))"]
-  ensures = ["wf_point(result)", "implies(is_inf(p), is_inf(result))", (P11, _MUL), (P11, _LOG1), (P11, _LOG2)]
-  caller_ensures = ["wf_point(result)", "implies(is_inf(p), is_inf(result))", _MUL, _LOG1, _LOG2, _DET]
+  ensures = ["wf_point(result)", "implies(is_inf(p), is_inf(result))", (P11, _MUL), (P11, _LOG1), (P11, _LOG2), (P11, _RED)]
+  caller_ensures = ["wf_point(result)", "implies(is_inf(p), is_inf(result))", _MUL, _LOG1, _LOG2, _RED, _DET]
   caller_assumed = [_DET]      # determinism of a function without state (frame obligation): names its infinity verdict
   on_call = {NEG: [ax("gmul_neg", "g_k", "elt(self, g_px, g_py)")],
              A2J: [ax("jelt_affine", "ret[0]", "ret[1]"), ax("jon_affine", "ret[0]", "ret[1]"),
@@ -240,3 +242,149 @@ class PointSequence:
                    body_end=[("C10,C11", ax("gmul_succ", "i - 2", "eltp(self, base)"))])}
   var_types = {"res": "list[jpoint]"}
   props = ["C10", "C11"]
+
+
+# ---------------------------------------------------------------------------------------------------------------------
+# x-coordinates of group elements (for the baby-step table): gxc(e) is the canonical x-coordinate in [0, p) of e != 0
+
+macro("gxc", ["c", "e"], "ufi('gxc', c.a, c.b, c.mod, e)")
+_ax("gx_neg", {"e": "int"}, [], ["ufi('gxc', ca, cb, cm, ufi('gneg', ca, cb, cm, e)) == ufi('gxc', ca, cb, cm, e)"],
+    "x(-e) == x(e)")
+_ax("gx_inj", {"e1": "int", "e2": "int"},
+    ["e1 != ufi('gzero', ca, cb, cm)", "e2 != ufi('gzero', ca, cb, cm)",
+     "ufi('gxc', ca, cb, cm, e1) == ufi('gxc', ca, cb, cm, e2)"],
+    ["e1 == e2 or e1 == ufi('gneg', ca, cb, cm, e2)"], "two points with the same x-coordinate are equal or opposite")
+_ax("gneg_zero", {"e": "int"}, [],
+    ["(ufi('gneg', ca, cb, cm, e) == ufi('gzero', ca, cb, cm)) == (e == ufi('gzero', ca, cb, cm))",
+     "ufi('gneg', ca, cb, cm, ufi('gneg', ca, cb, cm, e)) == e"], "-e == 0 iff e == 0; -(-e) == e")
+_ax("gmul_add", {"a": "int", "b": "int", "x": "int"}, [],
+    ["ufi('gadd', ca, cb, cm, ufi('gmul', ca, cb, cm, a, x), ufi('gmul', ca, cb, cm, b, x)) == "
+     "ufi('gmul', ca, cb, cm, a + b, x)"], "a x + b x == (a + b) x")
+_ax("gmul_mul", {"a": "int", "b": "int", "x": "int"}, [],
+    ["ufi('gmul', ca, cb, cm, a, ufi('gmul', ca, cb, cm, b, x)) == ufi('gmul', ca, cb, cm, a * b, x)"], "a (b x) == (a b) x")
+_ax("gmul_negate", {"a": "int", "x": "int"}, [],
+    ["ufi('gneg', ca, cb, cm, ufi('gmul', ca, cb, cm, a, x)) == ufi('gmul', ca, cb, cm, 0 - a, x)"], "-(a x) == (-a) x")
+_ax("elt_inj", {"x1": "int", "y1": "int", "x2": "int", "y2": "int"},
+    ["0 <= x1 and x1 < cm and 0 <= y1 and y1 < cm and 0 <= x2 and x2 < cm and 0 <= y2 and y2 < cm",
+     "ufi('elt', ca, cb, cm, x1, y1) == ufi('elt', ca, cb, cm, x2, y2)"], ["x1 == x2 and y1 == y2"],
+    "reduced coordinates are unique")
+_ax("elt_neg", {"x": "int", "y": "int"}, ["ufb('oncv', ca, cb, cm, x, y)"],
+    ["ufb('oncv', ca, cb, cm, x, (0 - y) % cm)",
+     "ufi('elt', ca, cb, cm, x, (0 - y) % cm) == ufi('gneg', ca, cb, cm, ufi('elt', ca, cb, cm, x, y))"],
+    "(x, -y mod p) is the opposite point")
+
+# the baby-step table T for base point B and size n (int keys: canonical x-coordinates; the key None: the identity)
+macro("table_ok", ["c", "T", "n", "B"],
+      "forall(v, 0, n, (dict_has(T, None) if gmul(c, v, B) == gzero(c) else dict_has(T, gxc(c, gmul(c, v, B))))) and "
+      "forall((k,), dict_has(T, k), gmul(c, T[k], B) != gzero(c) and gxc(c, gmul(c, T[k], B)) == k) and "
+      "implies(dict_has(T, None), gmul(c, T[None], B) == gzero(c))")
+
+
+_BAX = ("forall(k, 0, len(points), implies(onp(self, p) and onp(self, points[k]), "
+        "(result[k] is None) == (gadd(self, eltp(self, p), eltp(self, points[k])) == gzero(self)) and "
+        "implies(result[k] is not None, result[k] == gxc(self, gadd(self, eltp(self, p), eltp(self, points[k]))))))")
+import contracts.ec_util  # noqa: E402,F401  (BatchAddX's contract lives there)
+bridge(f"{E}::EcCurve.BatchAddX", _BAX)
+
+
+
+PS = f"{E}::EcCurve.PointSequence"
+BAX = f"{E}::EcCurve.BatchAddX"
+MUL = f"{E}::EcCurve.Multiply"
+_E = "elt(self, self.g[0], self.g[1])"
+_P = "elt(self, points[wi][0], points[wi][1])"
+
+
+def axg(name, *args):
+  return f"lemma('{name}', self.a, self.b, self.mod, {', '.join(args)})"
+
+
+@contract(f"{E}::EcCurve.BatchDL#completeness")
+class BatchDLComplete:
+  """COMPLETENESS of the baby-step / giant-step search, as a conditional theorem about BatchDL's own logic (the second,
+  independent contract on this function; soundness is the first): for every index wi and every wx with 0 <= wx < n, if
+  points[wi] == wx * G and the table cached on the curve is a correct baby-step table of its recorded size, then
+  result[wi] is not None - for every n, every list and every curve.  The argument: the giant step J = (wx + ts - 1) // t
+  leaves delta = wx - J t with |delta| < ts (search-space obligation); BatchAddX(p, list_c)[J] is the x-coordinate of
+  delta * G (or None for delta * G == 0), which is a key of the table; the stored value v satisfies v G == +-delta G, so
+  one of the two candidates J t + v, J t - v multiplies G to the target and is stored.  Assumed: the group-view bridge
+  clauses of Multiply's callees, BatchAddX and PointTable (contracts/ec_group.py)."""
+  params = {"points": "list[point]", "n": "int"}
+  self_fields = dict(F, _table="dict[int,int]", _table_size="int")
+  returns = "list[Optional[int]]"
+  requires = CURVE_REQ + ["n >= 1", "self._table_size >= 0", "forall(k, 0, len(points), wf_point(points[k]))",
+                          "wf_point(self.g) and self.g[0] is not None",
+                          "0 <= self.g[0] and self.g[0] < self.mod and 0 <= self.g[1] and self.g[1] < self.mod"]
+  spec_axioms = ["oncv(self, self.g[0], self.g[1])"]
+  raises = {"ArithmeticError": None}
+  ghost_params = {"wi": "int", "wx": "int"}
+  ghost_requires = ["0 <= wi and wi < len(points)", "points[wi][0] is not None",
+                    "0 <= points[wi][0] and points[wi][0] < self.mod and 0 <= points[wi][1] and points[wi][1] < self.mod",
+                    "oncv(self, points[wi][0], points[wi][1])", "0 <= wx and wx < n",
+                    f"{_P} == gmul(self, wx, {_E})",
+                    f"table_ok(self, self._table, self._table_size, {_E})"]
+  # ... and the cached table is again a correct table of its recorded size (the hypothesis is an invariant of the curve
+  # object: it holds for the empty table of __init__ and is re-established by every method that replaces the table)
+  ghost_ensures = [("C10", "result[wi] is not None"),
+                   ("C10", f"table_ok(self, self._table, self._table_size, {_E})")]
+  entry_ghost = ["g_J = 0", "g_xn = True", "g_xv = 0", "g_V = 0", "g_VD = True", "g_VN = True"]
+  on_call = {
+      PS: ["g_J = idiv(wx + table_size - 1, t)",
+           "divmod_def(wx + table_size - 1, t)",
+           "assert [C10] table_size >= 1 and t == 2 * table_size - 1 and self._table_size >= table_size",
+           "assert [C10] 0 <= g_J and g_J < args[1] and 0 - table_size < wx - g_J * t and wx - g_J * t < table_size",
+           f"assert [C10] table_ok(self, self._table, self._table_size, {_E})"],
+      BAX: [
+          "begin_scope",
+          "let ON = i == wi",
+          "let D = wx - g_J * t",
+          f"let GD = gmul(self, D, {_E})", f"let GN = gmul(self, 0 - D, {_E})",
+          "let AD = D if D >= 0 else 0 - D",
+          # list_c[J] == J * (-t G) == (-J t) G ;  p + list_c[J] == (wx - J t) G
+          "implies(ON, " + axg("gmul_mul", "g_J", "0 - t", _E) + ")",
+          "implies(ON, " + axg("gmul_add", "wx", "(0 - t) * g_J", _E) + ")",
+          f"assert [C10] implies(ON, eltp(self, list_c[g_J]) == gmul(self, g_J * (0 - t), {_E}))",
+          f"assert [C10] implies(ON, gadd(self, eltp(self, p), eltp(self, list_c[g_J])) == GD)",
+          # x(delta G) == x(-delta G); the table holds the key of |delta| G
+          "implies(ON, " + axg("gmul_negate", "D", _E) + " and " + axg("gx_neg", "GD") + " and " + axg("gneg_zero", "GD") + ")",
+          f"assert [C10] implies(ON, gmul(self, AD, {_E}) == GD or gmul(self, AD, {_E}) == GN)",
+          "assert [C10] implies(ON, (ret[g_J] is None) == (GD == gzero(self)))",
+          "assert [C10] implies(ON, dict_has(self._table, ret[g_J]))",
+          f"let VV = gmul(self, self._table[ret[g_J]], {_E}) if ON else gzero(self)",
+          "implies(ON, " + axg("gx_inj", "VV", "GD") + ")",
+          "assert [C10] implies(ON, VV == GD or VV == GN)",
+          "end_scope",
+          "g_xn = ret[g_J] is None if i == wi else True",
+          "g_xv = (ret[g_J] if ret[g_J] is not None else 0) if i == wi else 0",
+          "g_V = self._table[ret[g_J]] if i == wi else 0",
+          f"g_VD = (gmul(self, g_V, {_E}) == gmul(self, wx - g_J * t, {_E})) if i == wi else True",
+          f"g_VN = (gmul(self, g_V, {_E}) == gmul(self, 0 - (wx - g_J * t), {_E})) if i == wi else True",
+          "assert [C10] implies(i == wi, g_VD or g_VN)"],
+      MUL: [
+          "begin_scope",
+          "let ON = defined('res') and i == wi and _i1 == g_J",
+          "let d_ = (args[1] - _i1 * t) if ON else 0",
+          f"let E_ = {_E}",
+          "assert [C10] implies(ON, (x is None) == g_xn and (x is None or x == g_xv))",
+          "assert [C10] implies(ON, d_ == g_V or d_ == 0 - g_V)",
+          "implies(ON, " + axg("gmul_add", "_i1 * t", "d_", "E_") + " and " + axg("gmul_add", "_i1 * t", "wx - _i1 * t", "E_") + ")",
+          "implies(ON, " + axg("gmul_negate", "d_", "E_") + " and " + axg("gmul_negate", "0 - (wx - _i1 * t)", "E_") + " and " +
+          axg("gneg_zero", "gmul(self, d_, E_)") + " and " + axg("gmul_negate", "0 - d_", "E_") + ")",
+          "assert [C10] implies(ON and gmul(self, d_, E_) == gmul(self, wx - _i1 * t, E_), "
+          "gmul(self, args[1], E_) == gmul(self, wx, E_))",
+          "implies(ON and ret[0] is not None, " + axg("elt_inj", "ret[0]", "ret[1]", "p[0]", "p[1]") + ")",
+          "implies(ON, " + axg("elt_finite", "p[0]", "p[1]") + ")",
+          "assert [C10] implies(ON and gmul(self, args[1], E_) == gmul(self, wx, E_), "
+          "ret[0] is not None and ret[0] == p[0] and ret[1] == p[1])",
+          # the candidate J t + v matches when v G == delta G, the candidate J t - v when v G == -delta G
+          "assert [C10] implies(ON and d_ == g_V and g_VD, ret[0] is not None and ret[0] == p[0] and ret[1] == p[1])",
+          "assert [C10] implies(ON and d_ == 0 - g_V and g_VN, ret[0] is not None and ret[0] == p[0] and ret[1] == p[1])",
+          "end_scope"]}
+  loops = {0: dict(invariant=["len(res) == len(points)", ("C10", "implies(i > wi, res[wi] is not None)")],
+                   types={"res": "list[Optional[int]]"}, keep={"g_J"}),
+           1: dict(invariant=["len(res) == len(points)", ("C10", "implies(i > wi, res[wi] is not None)"),
+                              ("C10", "implies(i == wi and j > g_J, res[i] is not None)")],
+                   types={"res": "list[Optional[int]]"}, keep={"g_J", "g_xn", "g_xv", "g_V", "g_VD", "g_VN"})}
+  var_types = {"res": "list[Optional[int]]"}
+  feasibility = False
+  props = ["C10"]
